@@ -22,11 +22,14 @@ ASSUMPTIONS = ["rustc's MIR (opt-level 0) faithfully represents the compiled cra
 SER = "ser::YamlSerializer"
 
 
+TRACKED = [SER]
+
+
 def ser_field(fn, place):
-    """name of the YamlSerializer field a place denotes (last projection), else None"""
+    """name of the tracked struct's field a place denotes (last projection), else None"""
     for e in reversed(place["pr"]):
         if isinstance(e, dict) and "i" in e:
-            if e.get("of") == SER and e.get("f"):
+            if e.get("of") in TRACKED and e.get("f"):
                 return e["f"]
             return None
         if e == "*":
@@ -66,7 +69,7 @@ def find_pairs(f, fx):
                     saves.append((b, i, sf, s_["p"]["l"], False))
     for b, t in f.calls():
         c = fx.callee(t)
-        if c in ("std::option::Option::replace", "std::option::Option::take", "std::mem::replace", "std::mem::take") and not t["dest"]["pr"] and f.local_name(t["dest"]["l"]):
+        if last_seg(c) in ("replace", "take") and not t["dest"]["pr"] and f.local_name(t["dest"]["l"]):
             a0 = t["args"][0]
             pl = a0.get("mv") or a0.get("cp")
             if pl is not None and not pl["pr"]:
@@ -109,7 +112,7 @@ def writes_field(f, fx, blk_index, fld, local):
     t = blk["term"]
     if t["k"] == "call":
         c = fx.callee(t)
-        if c in ("std::option::Option::replace", "std::option::Option::take", "std::mem::replace", "std::mem::take"):
+        if last_seg(c) in ("replace", "take") and t["args"]:
             a0 = t["args"][0]
             pl = a0.get("mv") or a0.get("cp")
             if pl is not None and not pl["pr"]:
